@@ -479,8 +479,8 @@ def _source_formulas(eng, R):
           what="absolute covariance of a relative matrix source = relative covariance converted with the current reference")
     check(eng, R, "Hsrc", M, "cov_mat_rel", "assign", "self._calculate_cov_mat_rel_from_cov(self.cov_mat, self.reference)", target="self._cov_mat_rel", when="=(not self.relative)", known=KM,
           what="relative covariance of an absolute matrix source = covariance converted with the current reference")
-    check(eng, R, "Hsrc", M, "_calculate_cov_mat_from_cov_rel", "return", "CovMat(cov_mat_rel * outer(reference, reference))", known=["cov_mat_rel", "reference"], what="covariance = relative covariance x outer(reference, reference)")
-    check(eng, R, "Hsrc", M, "_calculate_cov_mat_rel_from_cov", "return", "CovMat(cov_mat / outer(reference, reference))", known=["cov_mat", "reference"], what="relative covariance = covariance / outer(reference, reference)")
+    check(eng, R, "Hsrc", M, "_calculate_cov_mat_from_cov_rel", "return", "CovMat(cov_mat_rel * outer(reference, reference))", known=["cov_mat_rel", "reference", "()abs"], what="covariance = relative covariance x outer(reference, reference)")
+    check(eng, R, "Hsrc", M, "_calculate_cov_mat_rel_from_cov", "return", "CovMat(cov_mat / outer(reference, reference))", known=["cov_mat", "reference", "()abs"], what="relative covariance = covariance / outer(reference, reference)")
     check(eng, R, "Hsrc", M, "_calculate_cov_mat_from_cor_mat_and_error_array", "return", "CovMat(outer(error_array, error_array) * corr_mat)", known=["error_array", "corr_mat"], what="covariance = outer(sigma, sigma) o correlation")
     # ---- total
     check(eng, R, "Htot", M, "error", "assign", "sqrt(diag(self.cov_mat))", target="self._err", known=KM, what="pointwise uncertainty = sqrt(diag(covariance))")
